@@ -13,6 +13,13 @@ open Gallia Gallia.Proto Gallia.Randomize
   bdraws 0110...                                     Boolean draws
   run float | run bool                               -> <dump> draws=<n> choices=<n> levels=<n> order=<ok|bad>
   wf <dump>                                          -> well-formedness report of a model under the current params
+  runpy float | runpy bool                           -> <dump> draws=<n> choices=<n> levels=<n> orders=<l0>;<l1>;...
+                                                        (no `orders` input: CPython's set order is computed, Model/PySet)
+  defopt <all> <mandatory> <neg>                     -> list(set(all) - set(mandatory + [neg])) by the PySet model
+  s new <d> | s from <d> <xs>                        registers of PySets (values); every `s` line prints
+  s add|discard <d> <a> <x> | s update <d> <a> <xs>     <list(d)> used=<n> fill=<n> size=<n>
+  s sub|or|isub|ior <d> <a> <b> | s copy <d> <a>     d := a - b | a | b | (a -= b) | (a |= b) | a.copy()
+  s has <a> <x>                                      -> 0 | 1
 -/
 
 structure St where
@@ -24,6 +31,7 @@ structure St where
   choices : Array Nat := #[]
   fdraws : Array Nat := #[]
   bdraws : Array Bool := #[]
+  regs : Array PySet.PySet := #[]
 
 def parseNats (s : String) : Option (List Nat) :=
   if s == "-" then some [] else (s.splitOn ",").mapM String.toNat?
@@ -90,6 +98,45 @@ def isPermOf (a b : List Nat) : Bool :=
 
 def b01 (b : Bool) : String := if b then "1" else "0"
 
+def showSet (x : PySet.PySet) : String :=
+  let l := PySet.toList x
+  s!"{if l.isEmpty then "-" else showNats "," l} used={x.used} fill={x.fill} size={x.table.size}"
+
+def reg (s : St) (i : Nat) : PySet.PySet := s.regs.getD i PySet.empty
+
+def setReg (s : St) (d : Nat) (x : PySet.PySet) : St × String :=
+  let regs := if d < s.regs.size then s.regs else s.regs ++ Array.replicate (d + 1 - s.regs.size) PySet.empty
+  ({ s with regs := regs.setIfInBounds d x }, showSet x)
+
+def setOp (s : St) : List String → St × String
+  | ["new", d] => match d.toNat? with
+    | some d => setReg s d PySet.empty
+    | none => (s, "bad-op")
+  | ["from", d, xs] => match d.toNat?, parseNats xs with
+    | some d, some xs => setReg s d (PySet.ofList xs)
+    | _, _ => (s, "bad-op")
+  | ["update", d, a, xs] => match d.toNat?, a.toNat?, parseNats xs with
+    | some d, some a, some xs => setReg s d (PySet.update (reg s a) xs)
+    | _, _, _ => (s, "bad-op")
+  | ["has", a, x] => match a.toNat?, x.toNat? with
+    | some a, some x => (s, b01 (PySet.contains (reg s a) x))
+    | _, _ => (s, "bad-op")
+  | ["copy", d, a] => match d.toNat?, a.toNat? with
+    | some d, some a => setReg s d (PySet.copy (reg s a))
+    | _, _ => (s, "bad-op")
+  | [op, d, a, b] => match d.toNat?, a.toNat?, b.toNat? with
+    | some d, some a, some b =>
+      match op with
+      | "add" => setReg s d (PySet.add (reg s a) b)
+      | "discard" => setReg s d (PySet.discard (reg s a) b)
+      | "sub" => setReg s d (PySet.difference (reg s a) (reg s b))
+      | "or" => setReg s d (PySet.union (reg s a) (reg s b))
+      | "isub" => setReg s d (PySet.differenceUpdate (reg s a) (reg s b))
+      | "ior" => setReg s d (PySet.merge (reg s a) (reg s b))
+      | _ => (s, "bad-op")
+    | _, _, _ => (s, "bad-op")
+  | _ => (s, "bad-op")
+
 def step (s : St) (line : String) : St × String :=
   match words line with
   | ["reset"] => ({}, "ok")
@@ -127,6 +174,15 @@ def step (s : St) (line : String) : St × String :=
     let ok := sets.length == r.levels &&
       (List.range sets.length).all (fun l => isPermOf (o.order l) (sets.getD l []))
     (s, s!"{showModel r.model} draws={r.draws} choices={r.choices} levels={r.levels} order={if ok then "ok" else "bad"}")
+  | ["runpy", mode] =>
+    let o := oracles s (mode == "float")
+    let r := randomizePyGen isoTables s.p o.draw o.choice
+    (s, s!"{showModel r.model} draws={r.draws} choices={r.choices} levels={r.levels} orders={";".intercalate (r.orders.map (showNats ","))}")
+  | ["defopt", a, m, n] =>
+    match parseNats a, parseNats m, n.toNat? with
+    | some a, some m, some n => (s, showNats "," (defaultOptionalServices a m n))
+    | _, _, _ => (s, "bad-op")
+  | "s" :: rest => setOp s rest
   | ["wf", m] =>
     match parseModel m with
     | some m =>
